@@ -704,14 +704,17 @@ pub struct GenCfg {
     pub heavy_ops: bool, // sha256/pubkey etc
     /// steer around the feature combinations of the listed known findings (see known_findings.json)
     pub avoid_known: bool,
+    /// classic reads atoms untyped: an integer literal whose bytes spell an operator keyword or a
+    /// name is that keyword/name there, so such integers are not generated for the classic dialect
+    pub classic_ints: bool,
 }
 
 impl GenCfg {
     pub fn modern() -> GenCfg {
-        GenCfg { max_helpers: 5, max_depth: 4, max_params: 6, allow_macros: true, allow_lambda: true, allow_let: true, allow_rest: true, allow_at: true, allow_nested_mod: true, allow_zero_led: true, allow_raise: true, heavy_ops: true, avoid_known: true }
+        GenCfg { max_helpers: 5, max_depth: 4, max_params: 6, allow_macros: true, allow_lambda: true, allow_let: true, allow_rest: true, allow_at: true, allow_nested_mod: true, allow_zero_led: true, allow_raise: true, heavy_ops: true, avoid_known: true, classic_ints: false }
     }
     pub fn classic() -> GenCfg {
-        GenCfg { max_helpers: 5, max_depth: 4, max_params: 6, allow_macros: true, allow_lambda: false, allow_let: false, allow_rest: false, allow_at: false, allow_nested_mod: false, allow_zero_led: true, allow_raise: true, heavy_ops: true, avoid_known: true }
+        GenCfg { max_helpers: 5, max_depth: 4, max_params: 6, allow_macros: true, allow_lambda: false, allow_let: false, allow_rest: false, allow_at: false, allow_nested_mod: false, allow_zero_led: true, allow_raise: true, heavy_ops: true, avoid_known: true, classic_ints: false }
     }
 }
 
@@ -749,13 +752,14 @@ pub struct Gen<'a> {
     /// of the modern compiler's output, so the total is capped)
     n_lets: u32,
     n_lambdas: u32,
+    in_inline_body: bool,
 }
 
 type Scope = Vec<(String, Ty)>;
 
 impl<'a> Gen<'a> {
     pub fn new(rng: &'a mut Rng, cfg: GenCfg) -> Gen<'a> {
-        Gen { rng, cfg, funs: vec![], consts: vec![], macs: vec![], ctr: 0, in_macro_arg: false, in_const: false, in_nested_mod: false, in_fun_body: false, in_call_arg: 0, n_lets: 0, n_lambdas: 0 }
+        Gen { rng, cfg, funs: vec![], consts: vec![], macs: vec![], ctr: 0, in_macro_arg: false, in_const: false, in_nested_mod: false, in_fun_body: false, in_call_arg: 0, n_lets: 0, n_lambdas: 0, in_inline_body: false }
     }
 
     fn fresh(&mut self, prefix: &str) -> String {
@@ -832,6 +836,7 @@ impl<'a> Gen<'a> {
         // 64 is the byte '@': the non-strict dialects read atoms untyped, so a bare 64 *is* the
         // environment reference there (language design, not a defect) — never generated.
         let v = if v == 64 { 65 } else { v };
+        let v = if self.cfg.classic_ints && ((33..=126).contains(&v) || [15987, 26982, 29041].contains(&v)) { v + 200 } else { v };
         Expr::Lit(Lit::Int(v))
     }
 
@@ -914,6 +919,9 @@ impl<'a> Gen<'a> {
             }
         }
         if roll < 38 && self.cfg.allow_let && !self.in_macro_arg && t != Ty::Clo && self.n_lets < 7 {
+            if self.rng.chance(1, 4) {
+                return self.gen_shadow_let(t, depth, scope);
+            }
             self.n_lets += 1;
             return self.gen_let(t, depth, scope);
         }
@@ -1141,7 +1149,8 @@ impl<'a> Gen<'a> {
                 let l = self.gen_expr(Ty::List, d, scope);
                 Expr::Prim("c", vec![a, l])
             }
-            4 if !self.in_macro_arg => {
+            // (known finding, classic: an inline function is itself a qq macro, a qq in its body breaks it)
+            4 if !self.in_macro_arg && !(self.cfg.classic_ints && self.in_inline_body && self.cfg.avoid_known) => {
                 // quasi-quotation with holes
                 let n = 1 + self.rng.below(3);
                 let mut q = QQ::Data(V::nil());
@@ -1223,36 +1232,84 @@ impl<'a> Gen<'a> {
         let d = depth - 1;
         let mut args: Vec<Expr> = vec![];
         self.in_call_arg += 1;
+        // a share of the calls have only constant arguments (and a constant tail): that is what
+        // the constant-folding optimisers of cl23+ act on
+        let all_const = self.rng.chance(1, 7) && !has_clo_param(&f.params);
+        let empty: Scope = vec![];
+        let (ascope, adepth): (&Scope, usize) = if all_const { (&empty, 0) } else { (scope, d) };
         for it in items.iter() {
-            args.push(self.gen_arg_expr(it, d, scope));
+            args.push(self.gen_arg_expr(it, adepth, ascope));
         }
         let mut rest: Option<Box<Expr>> = None;
+        let rest_ok = self.cfg.allow_rest && !(f.inline && self.cfg.avoid_known);
         if let Some(tp) = tail {
             // callee has a dotted tail parameter
             let tail_ty = match tp {
                 Pat::Var(_, ty) => *ty,
                 _ => Ty::Any,
             };
-            if self.cfg.allow_rest && !(f.inline && self.cfg.avoid_known) && self.rng.chance(1, 2) {
-                rest = Some(Box::new(self.gen_expr(if tail_ty == Ty::Any { Ty::List } else { tail_ty }, d, scope)));
+            let tt = if tail_ty == Ty::Any { Ty::List } else { tail_ty };
+            if rest_ok && self.rng.chance(1, 2) {
+                let e = if all_const {
+                    self.leaf(tt, &empty)
+                } else if self.cfg.allow_let && self.rng.chance(1, 3) {
+                    // the tail is a binding form that shadows a visible name
+                    self.gen_shadow_let(tt, d, scope)
+                } else {
+                    self.gen_expr(tt, d, scope)
+                };
+                rest = Some(Box::new(e));
             } else {
                 // extra positional arguments are collected by the tail
                 let k = self.rng.below(3);
                 for _ in 0..k {
-                    args.push(self.gen_expr(Ty::Int, d, scope));
+                    args.push(self.gen_expr(Ty::Int, adepth, ascope));
                 }
             }
-        } else if self.cfg.allow_rest && !(f.inline && self.cfg.avoid_known) && !items.is_empty() && self.rng.chance(1, 8) {
+        } else if rest_ok && !items.is_empty() && self.rng.chance(1, 8) {
             // too few positional arguments, the rest supplied through a literal-length tail
             let keep = self.rng.below(items.len());
             let dropped: Vec<Expr> = args.drain(keep..).collect();
-            rest = Some(Box::new(list_expr_of(dropped)));
+            rest = Some(Box::new(if all_const && self.rng.chance(1, 2) { quote_if_const(dropped) } else { list_expr_of(dropped) }));
         } else if self.rng.chance(1, 12) {
             // surplus positional arguments are ignored
-            args.push(self.gen_expr(Ty::Int, d, scope));
+            args.push(self.gen_expr(Ty::Int, adepth, ascope));
         }
         self.in_call_arg -= 1;
         Some(Expr::Call(f.name, args, rest))
+    }
+
+    /// A let / let* whose binding re-uses (shadows) a name that is visible here.
+    fn gen_shadow_let(&mut self, t: Ty, depth: usize, scope: &Scope) -> Expr {
+        let cands: Vec<(String, Ty)> = scope.iter().filter(|(_, ty)| *ty != Ty::Clo).cloned().collect();
+        if cands.is_empty() || self.n_lets >= 7 {
+            return self.gen_expr(t, depth, scope);
+        }
+        self.n_lets += 1;
+        let (name, ty) = self.rng.pick(&cands).clone();
+        let d = depth.saturating_sub(1);
+        // the new value is computed from the old one, so using the wrong one is visible
+        let old = Expr::Var(name.clone());
+        let newv = match ty {
+            Ty::Int => Expr::Prim("+", vec![old, self.lit_int()]),
+            Ty::List => {
+                let k = self.lit_int();
+                Expr::Prim("c", vec![k, old])
+            }
+            Ty::Bytes => Expr::Prim("concat", vec![old, self.lit_bytes()]),
+            _ => Expr::Prim("c", vec![old, Expr::Lit(Lit::Nil)]),
+        };
+        let nty = if ty == Ty::Any { Ty::Any } else { ty };
+        let mut inner = scope.clone();
+        inner.push((name.clone(), nty));
+        // a body that uses the shadowed name
+        let body = if nty == t || t == Ty::Any {
+            Expr::Var(name.clone())
+        } else {
+            self.gen_expr(t, d, &inner)
+        };
+        let kind = if self.rng.chance(1, 2) { LetKind::Let } else { LetKind::LetStar };
+        Expr::Let(kind, vec![(Pat::Var(name, nty), newv)], Box::new(body))
     }
 
     fn gen_arg_expr(&mut self, p: &Pat, depth: usize, scope: &Scope) -> Expr {
@@ -1386,8 +1443,10 @@ impl<'a> Gen<'a> {
         }
         // inline bodies are kept small: inline expansion multiplies code size at every use
         self.in_fun_body = true;
+        self.in_inline_body = inline;
         let body = self.gen_expr(ret, if inline { 2 } else { self.cfg.max_depth.saturating_sub(1) }, &scope);
         self.in_fun_body = false;
+        self.in_inline_body = false;
         self.cfg.allow_let = was_let;
         self.cfg.allow_lambda = was_lambda;
         Fun { name, inline, params, body, ret, recursive: false }
@@ -1504,6 +1563,19 @@ impl<'a> Gen<'a> {
         }
         Program { params, helpers, body, ret }
     }
+}
+
+/// `(q . (v1 v2 …))` when every item is an integer literal, else `(list …)`.
+fn quote_if_const(items: Vec<Expr>) -> Expr {
+    let mut vals = vec![];
+    for e in items.iter() {
+        match e {
+            Expr::Lit(Lit::Int(i)) => vals.push(V::int(*i)),
+            Expr::Lit(Lit::Nil) => vals.push(V::nil()),
+            _ => return Expr::List(items),
+        }
+    }
+    Expr::Quote(V::list(&vals))
 }
 
 fn list_expr_of(items: Vec<Expr>) -> Expr {
